@@ -31,7 +31,8 @@ def gen_case(rng, tier, i):
     prog = gen_program(rng, clock=clock, n_events=rng.randint(5, 60), bigint=True)
     # one case in four reaches the end through a bounded run first (the executed events must be the same; the horizon
     # rules themselves are C03's subject): the bound is a fraction of the run length added to the start time
-    return {"prog": prog, "via_bound": rng.choice([None, None, None, 0.25, 0.5, 0.75]) if i % 4 == 3 else None}
+    return {"prog": prog, "via_bound": rng.choice([None, None, None, 0.25, 0.5, 0.75]) if i % 4 == 3 else None,
+            "via_steps": i % 8 == 5}        # one case in eight is driven by step() alone
 
 
 def shard_teardown(tier, ctx):
@@ -61,6 +62,22 @@ def run_case(case, ctx):
             ctx.count("runs_through_a_bounded_run_first")
             if h.cmd("run_up_to", lit) != "ok" or not h.wait_quiescent(20):
                 ctx.viol("bounded-run-refused-or-hung", {**where, "bound": lit, "snapshot": h.snapshot()})
+                return
+        if case.get("via_steps"):
+            ctx.count("runs_driven_by_step_alone")
+            for _ in range(4 * len(ref.trace) + 20):
+                if h.sim.run_state.name == "ENDED":
+                    break
+                before_step = (len(h.hlog), sum(1 for n in h.nlog if n[0] == "WARMUP_EVENT"))
+                o = h.cmd("step")
+                if o != "ok":
+                    ctx.viol(f"step-refused-before-the-end:{o}", {**where, "snapshot": h.snapshot()})
+                    return
+                h.wait_quiescent(20)
+                if (len(h.hlog), sum(1 for n in h.nlog if n[0] == "WARMUP_EVENT")) == before_step:
+                    break           # nothing left that a step may execute (only events beyond the end)
+            # stepping until nothing moves any more has executed every event of the uninterrupted run
+            if not compare_traces(ctx, h.trace(), [(t, c) for t, c, _ in ref.trace if t != WARMUP], {**where, "driver": "step() until nothing moves"}, what="steps"):
                 return
         out = h.cmd("start") if h.sim.run_state.name != "ENDED" else "ok"
         if out != "ok":
